@@ -20,10 +20,10 @@ TECH = {
  "C10": "abstract interpretation of the shaving probe with a callee summary; first-iteration and loop-variant analysis of the probing loop (cursor monotonicity from the value filter passed to the scan); inductive range of the bound selector over the probing loop; zero-divisor dominance behind function pointers",
  "C11": "path analysis of worker exits and of the parent receive loop (marker counting, keep-best fold, slot writes, join placement); dispatch-table tracing of the address arrays",
  "C12": "abstract interpretation of Problem.split; affine adjacency and clamp entailment; ownership analysis of the domain lists; lint of copy / pickle hooks",
- "C13": "abstract interpretation of Problem.init (Python level) against the per-constraint cache oracle; offset round-trip equalities; interprocedural index-kind inference (indices, counts, returned positions); sort-guard invalidation and posting-order-list analysis; optional-argument resolution lint (is-None dominance, no truthiness on model integers); who-may-write lint on the problem object; dtype agreement of value-carrying arrays; who-may-write lint of the constraint list",
+ "C13": "abstract interpretation of Problem.init (Python level) against the per-constraint cache oracle; offset round-trip equalities; interprocedural index-kind inference (indices, counts, returned positions); sort-guard invalidation and posting-order-list analysis; optional-argument resolution lint (is-None dominance, no truthiness on model integers); who-may-write lint on the problem object; dtype agreement of value-carrying arrays; who-may-write lint of the constraint list; kind of the positions appended to the variable -> domain table; initial-queue completeness",
  "C15": "resolved call-graph role propagation (argument/parameter agreement), dispatch-table tracing, module-level state and mutable-default lint; narrow-dtype arithmetic lint; call-graph closure of address-taken registries; sort-stability lint; who-may-write lint on the problem object; copy-vs-alias lint of constructor arguments; complement-of-truth-value and zero-divisor lints in jitted code",
- "C16": "index-within-extent entailment from path facts for every shape index (table-free classification); assume/guarantee extent analysis of the Hall-interval helpers with inductive invariants; capacity-guard entailment; allocation-shape agreement; clamp-before-use and guard-one-off contradictions; index-kind inference; sentinel-argument exclusion at subscripts; absolute column of an index applied to a slice",
- "C17": "counter <-> event-site correspondence on abstract paths (exactly-once on event paths, never elsewhere); label/index/aggregator table agreement (dict literal or comprehension over a constant table)",
+ "C16": "index-within-extent entailment from path facts for every shape index (table-free classification); assume/guarantee extent analysis of the Hall-interval helpers with inductive invariants; capacity-guard entailment; allocation-shape agreement; clamp-before-use and guard-one-off contradictions; index-kind inference; sentinel-argument exclusion at subscripts; absolute column of an index applied to a slice; extent of the wake-up table; kind of the positions appended to the variable -> domain table",
+ "C17": "counter <-> event-site correspondence on abstract paths (exactly-once on event paths, never elsewhere); label/index/aggregator table agreement (dict literal or comprehension over a constant table; counters added beyond the 13 held to the same wiring); front end: behaviour-preserving inlining of new helpers",
  "C18": "structural necessary conditions (handle retention, bounded queue read, liveness-dependent exit that leaves the call, no SIGCHLD disposition, no one-shot iterator across the waiting loop) on abstract paths and the syntax tree; unbounded acquire / wait on synchronisation objects shared with the workers",
  "C19": "capacity-guard entailment on abstract paths (dtype range of the level pointer, push extent; assertions establish nothing); lint of wrapping conversions to narrow index types; dtype agreement of index-carrying arrays; narrow-dtype arithmetic lint; error-propagation lint (no exit in finally, no swallowed search error)"
 }
